@@ -1305,7 +1305,8 @@ def gen_tiled(ctx, idx):
         c['src_frames'] = c['src_frames'][:-1]                        # a sparse source without one of its tiles
     c['tile_size'] = None
     if c['mode'] == 'tpm' and r.random() < 0.4:
-        c['tile_size'] = [r.randint(1, 4), r.randint(1, 5)]
+        # an own tile size -- 40 % of the time the source's, spelled out (then every tile still has its source frame)
+        c['tile_size'] = [tr, tc] if r.random() < 0.4 else [r.randint(1, 4), r.randint(1, 5)]
     c['tile_size_spelling'] = r.choice(['tuple', 'list', 'numpy'])
     k = (idx + ctx.rng('rotation', 1).randrange(40)) % 40
     c['type'] = ['BINARY', 'FRACTIONAL', 'LABELMAP', 'BINARY'][k % 4]
